@@ -238,6 +238,9 @@ func c19setup(c *core.Ctx) {
 		}
 		c19codecs = append(c19codecs, c19codec{d.name, cd, d.mult})
 	}
+	// the exported codec types as a caller can construct them (their zero values), used directly: LongCodec is
+	// documented as nanoseconds since the epoch
+	c19codecs = append(c19codecs, c19codec{"plain-long/avrotime.LongCodec{} used directly", avrotime.LongCodec{}, 1})
 	c19rb = avro.NewReadBuf(nil)
 	c19wb = avro.NewWriteBuf(nil)
 	if tz := os.Getenv("VERIF_TZ"); tz != "" {
@@ -442,7 +445,7 @@ func runC19(c *core.Ctx, i int) {
 	if c19rb == nil {
 		c19setup(c)
 	}
-	if len(c19codecs) != 8 {
+	if len(c19codecs) != 9 {
 		return
 	}
 	r := c.Rand(i, 0)
